@@ -418,6 +418,26 @@ def _cli(R, only):
         for inner, w in res:
             if not np.array_equal(np.isnan(w), np.isnan(w0)) or not np.allclose(np.nan_to_num(w), np.nan_to_num(w0), rtol=1e-9, atol=0):
                 R.mismatch("balance-cli-differs-from-api", inner, f"cli={w.tolist()} api={w0.tolist()}")
+        # --ignore-dist D is documented as: ignore max(--ignore-diags, ceil(D / binsize)) diagonals (bin size 1 bp here)
+        for igd, dist in ((2, 1), (1, 3), (2, 2), (3, 1), (1, 1), (0, 2)):
+            inner = {"t": ti, "mat": mat, "ignore_diags": igd, "ignore_dist": dist}
+            R.ev(1, 1)
+            R.add("transitions")
+            R.cls("cli")
+            p = scratch.fresh()
+            shutil.copy(clr.filename, p)
+            code, so, exc = build.cli(["balance", "--min-nnz", 1, "--mad-max", 0, "--ignore-diags", igd, "--ignore-dist", dist, p])
+            if code != 0 or exc is not None:
+                R.mismatch("balance-cli-fails", inner, f"code={code} exc={exc!r}")
+                scratch.rm(p)
+                continue
+            w = cooler.Cooler(p).bins()["weight"][:].values
+            scratch.rm(p)
+            o2 = c10.base_opts("gw", max(igd, dist), 1, 0)
+            o2["max_iters"] = 200
+            w2, _ = call(clr, o2)
+            if not np.array_equal(np.isnan(w), np.isnan(w2)) or not np.allclose(np.nan_to_num(w), np.nan_to_num(w2), rtol=1e-9, atol=0):
+                R.mismatch("balance-cli --ignore-dist differs-from-api", inner, f"cli={w.tolist()} api(ignore_diags={max(igd, dist)})={w2.tolist()}")
 
 
 def seams():
